@@ -120,6 +120,7 @@ def oracle(op, out):
     gaps = []           # undetected gap reads: (cause, path)
     cur_req = None
     cur_read = None
+    read_log = None
     delivered = set()   # offsets delivered in the current recovery (stream pages + live reply)
     rec_from = None
     drained = False
@@ -144,12 +145,16 @@ def oracle(op, out):
                 log, lo = [], 0
         elif p[0] == "q":
             cur_req = p
+            read_log = None
             if p[1] in ("L", "T") and p[-1] == "1" and rec_from is None:
                 rec_from = int(p[2])
                 delivered = set()
         elif p[0] == "rd" and p[1] == "T":
             cur_read = (int(p[2]), cur_req)
         elif t == "ex" and cur_req is not None and cur_read is not None:
+            # the reply's position (offset, epoch) is the one of the stream this read saw: a Clear that lands
+            # after the read starts a new epoch with its own offsets (`log` is rebound, this list stays frozen)
+            read_log = log
             since, rq = cur_read
             if since < lo:
                 cause = "stream-expired" if lo == len(log) else ("since-zero" if since == 0 else "trimmed")
@@ -181,9 +186,12 @@ def oracle(op, out):
                         cm[k] = v
                 newpos = int(p[2])
                 if p[4] == "1" and rec_from is not None:
-                    # never_false_recovered: every admitted change in (rec_from, newpos] of the log was delivered
-                    missing = [o for o in range(rec_from + 1, min(newpos, len(log)) + 1)
-                               if admitted(flt, log[o - 1][0]) and o not in delivered]
+                    # never_false_recovered: every admitted change in (rec_from, newpos] of the log *of the epoch
+                    # the reply names* (the stream the recovery read saw) was delivered; what happens to a
+                    # client whose epoch was cleared meanwhile is the convergence clause (it must be told)
+                    lg = read_log if read_log is not None else log
+                    missing = [o for o in range(rec_from + 1, min(newpos, len(lg)) + 1)
+                               if admitted(flt, lg[o - 1][0]) and o not in delivered]
                     if missing:
                         und = [g for g in gaps if g[1].startswith("recovery")]
                         cause = und[-1][0] if und else "none"
